@@ -1,41 +1,1368 @@
-use std::io::Write;
+//! C08 correspondence + differential harness: file and pipe I/O through compio-fs / compio-runtime on
+//! EACH of {io_uring, polling} (for regular files the polling driver runs the thread-pool fallback,
+//! `Decision::Blocking`; pipes use readiness) and through std::fs / libc on a twin directory.
+//!
+//! A case is a list of text operations (see lean/Drivers/C08.lean for the model side). It is executed
+//! three times, each in its own fresh directory: compio/io_uring, compio/polling, OS twin. The output line
+//! of an operation is the compio result (one text when both drivers agree, `iour=.. poll=..` otherwise).
+//! Monitors (implementation only, no Lean model involved):
+//!   C08:os-divergence       compio result / buffer / content differs from the OS's own synchronous call
+//!   C08:driver-divergence   io_uring and polling differ
+//!   C08:read-not-recorded   the bytes a read transferred are not the prefix of the buffer's visible content
+//!   F15:vectored-nonprefix-init   same for vectored reads (advance_vec_to, known finding F15)
+//!   C08a:asyncfd-seq-regular-file sequential Read/Write through AsyncFd on a regular file (known finding)
+#![allow(clippy::too_many_arguments)]
 
+use std::{
+    collections::HashMap,
+    ffi::CString,
+    io,
+    os::{
+        fd::{AsRawFd, FromRawFd, OwnedFd},
+        unix::fs::{FileExt, MetadataExt},
+    },
+    path::{Path, PathBuf},
+};
+
+use compio_buf::{IntoInner, IoBuf, IoBufExt, IoBufMut, IoVectoredBuf, IoVectoredBufMut, SetLen, Slice};
 use compio_driver::{DriverType, ProactorBuilder};
-use compio_io::{AsyncRead, AsyncReadAt, AsyncWrite};
-use compio_runtime::fd::AsyncFd;
+use compio_io::{AsyncRead, AsyncReadAt, AsyncWrite, AsyncWriteAt};
+use compio_runtime::{Runtime, fd::AsyncFd};
+use hx_common::*;
 
-fn rt(t: DriverType) -> compio_runtime::Runtime {
+const PIPE_LIMIT: usize = 32768;
+
+// ---------------------------------------------------------------------------------------------
+// buffers
+// ---------------------------------------------------------------------------------------------
+
+#[derive(Clone, Debug)]
+struct Shape {
+    /// full allocation content (capacity = mem.len())
+    mem: Vec<u8>,
+    len: usize,
+    begin: usize,
+    end: Option<usize>,
+    sliced: bool,
+}
+
+impl Shape {
+    fn wf(&self) -> bool {
+        self.len <= self.mem.len() && self.begin <= self.len && self.end.map(|e| self.begin <= e).unwrap_or(true)
+    }
+
+    fn end_or_cap(&self) -> usize {
+        self.end.unwrap_or(self.mem.len()).min(self.mem.len())
+    }
+
+    fn end_or_len(&self) -> usize {
+        self.end.unwrap_or(self.len).min(self.len)
+    }
+
+    /// the window a read may fill (`as_uninit`)
+    fn window(&self) -> (usize, usize) {
+        (self.begin, self.end_or_cap().saturating_sub(self.begin))
+    }
+
+    /// the bytes a write sends (`as_init`)
+    fn visible(&self) -> &[u8] {
+        &self.mem[self.begin.min(self.mem.len())..self.end_or_len().max(self.begin).min(self.mem.len())]
+    }
+}
+
+fn pattern(fill: usize, n: usize) -> Vec<u8> {
+    (0..n).map(|j| (fill + j) as u8).collect()
+}
+
+fn opt_num(s: &str) -> Option<Option<usize>> {
+    if s == "-" { Some(None) } else { s.parse().ok().map(Some) }
+}
+
+/// `cap:len:fill[:begin:end]`
+fn parse_rbuf(s: &str) -> Option<Shape> {
+    let p: Vec<&str> = s.split(':').collect();
+    match p.len() {
+        3 => Some(Shape { mem: pattern(p[2].parse().ok()?, p[0].parse().ok()?), len: p[1].parse().ok()?, begin: 0, end: None, sliced: false }),
+        5 => Some(Shape {
+            mem: pattern(p[2].parse().ok()?, p[0].parse().ok()?),
+            len: p[1].parse().ok()?,
+            begin: p[3].parse().ok()?,
+            end: opt_num(p[4])?,
+            sliced: true,
+        }),
+        _ => None,
+    }
+}
+
+fn unhex_checked(s: &str) -> Option<Vec<u8>> {
+    if s == "-" {
+        return Some(vec![]);
+    }
+    if s.len() % 2 != 0 || !s.bytes().all(|b| b.is_ascii_digit() || (b'a'..=b'f').contains(&b)) {
+        return None;
+    }
+    Some(unhex(s))
+}
+
+/// `hex:spare[:begin:end]`
+fn parse_wbuf(s: &str) -> Option<Shape> {
+    let p: Vec<&str> = s.split(':').collect();
+    if p.len() != 2 && p.len() != 4 {
+        return None;
+    }
+    let data = unhex_checked(p[0])?;
+    let spare: usize = p[1].parse().ok()?;
+    let len = data.len();
+    let mut mem = data;
+    mem.extend(pattern(0xE0, spare));
+    if p.len() == 2 {
+        Some(Shape { mem, len, begin: 0, end: None, sliced: false })
+    } else {
+        Some(Shape { mem, len, begin: p[2].parse().ok()?, end: opt_num(p[3])?, sliced: true })
+    }
+}
+
+fn list_of(s: &str) -> Vec<&str> {
+    if s == "." { vec![] } else { s.split(',').collect() }
+}
+
+fn join_or(v: Vec<String>) -> String {
+    if v.is_empty() { ".".into() } else { v.join(",") }
+}
+
+/// a `Vec<u8>` with exactly this allocation content (spare capacity pre-filled) and length
+fn mk_vec(sh: &Shape) -> Vec<u8> {
+    let cap = sh.mem.len();
+    let mut v: Vec<u8> = Vec::with_capacity(cap);
+    assert!(v.capacity() == cap || cap == 0, "allocator returned a different capacity");
+    unsafe {
+        std::ptr::copy_nonoverlapping(sh.mem.as_ptr(), v.as_mut_ptr(), cap);
+        v.set_len(sh.len);
+    }
+    v
+}
+
+fn dump(v: &Vec<u8>, cap: usize) -> Vec<u8> {
+    assert!(v.capacity() >= cap);
+    unsafe { std::slice::from_raw_parts(v.as_ptr(), cap) }.to_vec()
+}
+
+/// member of a mixed vectored buffer: plain `Vec<u8>` or `Slice<Vec<u8>>`
+enum AnyBuf {
+    V(Vec<u8>),
+    S(Slice<Vec<u8>>),
+}
+
+impl IoBuf for AnyBuf {
+    fn as_init(&self) -> &[u8] {
+        match self {
+            AnyBuf::V(v) => v.as_init(),
+            AnyBuf::S(s) => s.as_init(),
+        }
+    }
+}
+
+impl SetLen for AnyBuf {
+    unsafe fn set_len(&mut self, len: usize) {
+        match self {
+            AnyBuf::V(v) => unsafe { SetLen::set_len(v, len) },
+            AnyBuf::S(s) => unsafe { SetLen::set_len(s, len) },
+        }
+    }
+}
+
+impl IoBufMut for AnyBuf {
+    fn as_uninit(&mut self) -> &mut [std::mem::MaybeUninit<u8>] {
+        match self {
+            AnyBuf::V(v) => v.as_uninit(),
+            AnyBuf::S(s) => s.as_uninit(),
+        }
+    }
+}
+
+impl AnyBuf {
+    fn root(self) -> Vec<u8> {
+        match self {
+            AnyBuf::V(v) => v,
+            AnyBuf::S(s) => s.into_inner(),
+        }
+    }
+}
+
+fn mk_slice(sh: &Shape) -> Slice<Vec<u8>> {
+    let v = mk_vec(sh);
+    match sh.end {
+        Some(e) => IoBufExt::slice(v, sh.begin..e),
+        None => IoBufExt::slice(v, sh.begin..),
+    }
+}
+
+fn mk_any(sh: &Shape) -> AnyBuf {
+    if sh.sliced { AnyBuf::S(mk_slice(sh)) } else { AnyBuf::V(mk_vec(sh)) }
+}
+
+// ---------------------------------------------------------------------------------------------
+// observations
+// ---------------------------------------------------------------------------------------------
+
+#[derive(Clone, Debug, Default)]
+struct Obs {
+    /// canonical output text (compio side: what the model must reproduce)
+    text: String,
+    /// the part comparable with the OS twin
+    cmp: String,
+    /// read-recording monitor: Some(detail) when the transferred bytes are not the visible prefix
+    unrecorded: Option<String>,
+}
+
+fn obs(text: impl Into<String>) -> Obs {
+    let t = text.into();
+    Obs { cmp: t.clone(), text: t, unrecorded: None }
+}
+
+fn errno(e: &io::Error) -> i32 {
+    e.raw_os_error().unwrap_or(match e.kind() {
+        io::ErrorKind::InvalidInput => 22,
+        _ => -1,
+    })
+}
+
+fn err_obs(e: &io::Error) -> Obs {
+    obs(format!("err {}", errno(e)))
+}
+
+fn res_obs(r: io::Result<()>) -> Obs {
+    match r {
+        Ok(()) => obs("ok"),
+        Err(e) => err_obs(&e),
+    }
+}
+
+/// after a read of `n` bytes into shapes `shs` whose roots are now `roots`
+fn read_obs(n: usize, shs: &[Shape], roots: &[Vec<u8>], vectored: bool) -> Obs {
+    let mems: Vec<Vec<u8>> = shs.iter().zip(roots).map(|(s, r)| dump(r, s.mem.len())).collect();
+    let lens: Vec<String> = roots.iter().map(|r| r.len().to_string()).collect();
+    let hexes: Vec<String> = mems.iter().map(|m| hex(m)).collect();
+    let (lens_t, hex_t) = if vectored { (join_or(lens), join_or(hexes)) } else { (lens[0].clone(), hexes[0].clone()) };
+    // transferred bytes = first n of the concatenated windows; visible = concatenated as_init
+    let mut flat = vec![];
+    let mut vis = vec![];
+    for ((s, r), m) in shs.iter().zip(roots).zip(&mems) {
+        let (off, wl) = s.window();
+        flat.extend_from_slice(&m[off..off + wl]);
+        let now = Shape { mem: m.clone(), len: r.len(), ..s.clone() };
+        vis.extend_from_slice(now.visible());
+    }
+    let unrecorded = if vis.len() < n || vis[..n] != flat[..n] {
+        Some(format!("read returned {n}, bytes transferred {} but visible content is {} (lens {lens_t})", hex(&flat[..n]), hex(&vis)))
+    } else {
+        None
+    };
+    Obs { text: format!("ok {n} {lens_t} {hex_t}"), cmp: format!("ok {n} {hex_t}"), unrecorded }
+}
+
+// ---------------------------------------------------------------------------------------------
+// compio backend
+// ---------------------------------------------------------------------------------------------
+
+struct CPipe {
+    rx: Option<compio_fs::pipe::Receiver>,
+    tx: Option<compio_fs::pipe::Sender>,
+    buffered: usize,
+}
+
+#[derive(Default)]
+struct CState {
+    files: HashMap<u64, compio_fs::File>,
+    seq: HashMap<u64, AsyncFd<std::fs::File>>,
+    pipes: HashMap<u64, CPipe>,
+}
+
+async fn c_read_vec<F>(shs: &[Shape], f: F) -> Obs
+where
+    F: AsyncFnOnce(VecKind) -> (io::Result<usize>, VecKind),
+{
+    let all_plain = shs.iter().all(|s| !s.sliced);
+    let bufs = if all_plain && shs.len() == 2 {
+        VecKind::Arr2([mk_vec(&shs[0]), mk_vec(&shs[1])])
+    } else if all_plain {
+        VecKind::Plain(shs.iter().map(mk_vec).collect())
+    } else {
+        VecKind::Mixed(shs.iter().map(mk_any).collect())
+    };
+    let (r, bufs) = f(bufs).await;
+    match r {
+        Ok(n) => read_obs(n, shs, &bufs.roots(), true),
+        Err(e) => err_obs(&e),
+    }
+}
+
+enum VecKind {
+    Arr2([Vec<u8>; 2]),
+    Plain(Vec<Vec<u8>>),
+    Mixed(Vec<AnyBuf>),
+}
+
+impl VecKind {
+    fn roots(self) -> Vec<Vec<u8>> {
+        match self {
+            VecKind::Arr2(a) => a.into_iter().collect(),
+            VecKind::Plain(v) => v,
+            VecKind::Mixed(v) => v.into_iter().map(|b| b.root()).collect(),
+        }
+    }
+}
+
+async fn rd_at<B: IoVectoredBufMut>(f: &compio_fs::File, b: B, pos: u64) -> (io::Result<usize>, B) {
+    let compio_buf::BufResult(r, b) = f.read_vectored_at(b, pos).await;
+    (r, b)
+}
+
+async fn wr_at<B: IoVectoredBuf>(f: &compio_fs::File, b: B, pos: u64) -> io::Result<usize> {
+    let mut f = f;
+    f.write_vectored_at(b, pos).await.0
+}
+
+fn wf_all(shs: &[Shape]) -> bool {
+    shs.iter().all(|s| s.wf())
+}
+
+/// construct the sliced buffers of a non-wf request so that the genuine assertion fires
+fn try_construct(shs: &[Shape]) -> Obs {
+    let r = catch(|| {
+        for s in shs {
+            if s.len <= s.mem.len() {
+                let _ = mk_any(s);
+            } else {
+                panic!("len > capacity cannot be constructed");
+            }
+        }
+    });
+    match r {
+        Ok(()) => obs("constructed"),
+        Err(_) => obs("panic"),
+    }
+}
+
+async fn compio_line(st: &mut CState, dir: &Path, w: &[&str]) -> Obs {
+    let num = |s: &str| s.parse::<u64>().ok();
+    match w {
+        ["open", h, name, bits] => {
+            let (Some(h), true) = (num(h), bits.len() == 5 && bits.bytes().all(|b| b == b'0' || b == b'1')) else { return obs("bad-op") };
+            let b: Vec<bool> = bits.bytes().map(|x| x == b'1').collect();
+            let mut oo = compio_fs::OpenOptions::new();
+            oo.read(b[0]).write(b[1]).truncate(b[2]).create(b[3]).create_new(b[4]);
+            match oo.open(dir.join(name)).await {
+                Ok(f) => {
+                    st.files.insert(h, f);
+                    obs("ok")
+                }
+                Err(e) => err_obs(&e),
+            }
+        }
+        ["close", h] => {
+            let Some(h) = num(h) else { return obs("bad-op") };
+            if let Some(f) = st.files.remove(&h) {
+                res_obs(f.close().await)
+            } else if st.seq.remove(&h).is_some() {
+                obs("ok")
+            } else {
+                obs("nohandle")
+            }
+        }
+        ["readat", h, pos, buf] => {
+            let (Some(h), Some(pos), Some(sh)) = (num(h), num(pos), parse_rbuf(buf)) else { return obs("bad-op") };
+            let Some(f) = st.files.get(&h) else { return obs("nohandle") };
+            if !sh.wf() {
+                return try_construct(&[sh]);
+            }
+            let (r, root) = if sh.sliced {
+                let s = mk_slice(&sh);
+                let compio_buf::BufResult(r, s) = f.read_at(s, pos).await;
+                (r, s.into_inner())
+            } else {
+                let v = mk_vec(&sh);
+                let compio_buf::BufResult(r, v) = f.read_at(v, pos).await;
+                (r, v)
+            };
+            match r {
+                Ok(n) => read_obs(n, &[sh], &[root], false),
+                Err(e) => err_obs(&e),
+            }
+        }
+        ["readv", h, pos, bufs] => {
+            let shs: Option<Vec<Shape>> = list_of(bufs).into_iter().map(parse_rbuf).collect();
+            let (Some(h), Some(pos), Some(shs)) = (num(h), num(pos), shs) else { return obs("bad-op") };
+            let Some(f) = st.files.get(&h) else { return obs("nohandle") };
+            if !wf_all(&shs) {
+                return try_construct(&shs);
+            }
+            c_read_vec(&shs, async |b| match b {
+                VecKind::Arr2(a) => {
+                    let (r, a) = rd_at(f, a, pos).await;
+                    (r, VecKind::Arr2(a))
+                }
+                VecKind::Plain(a) => {
+                    let (r, a) = rd_at(f, a, pos).await;
+                    (r, VecKind::Plain(a))
+                }
+                VecKind::Mixed(a) => {
+                    let (r, a) = rd_at(f, a, pos).await;
+                    (r, VecKind::Mixed(a))
+                }
+            })
+            .await
+        }
+        ["writeat", h, pos, buf] => {
+            let (Some(h), Some(pos), Some(sh)) = (num(h), num(pos), parse_wbuf(buf)) else { return obs("bad-op") };
+            let Some(f) = st.files.get(&h) else { return obs("nohandle") };
+            if !sh.wf() {
+                return try_construct(&[sh]);
+            }
+            let mut f = f;
+            let r = match mk_any(&sh) {
+                AnyBuf::V(v) => f.write_at(v, pos).await.0,
+                AnyBuf::S(s) => f.write_at(s, pos).await.0,
+            };
+            match r {
+                Ok(n) => obs(format!("ok {n}")),
+                Err(e) => err_obs(&e),
+            }
+        }
+        ["writev", h, pos, bufs] => {
+            let shs: Option<Vec<Shape>> = list_of(bufs).into_iter().map(parse_wbuf).collect();
+            let (Some(h), Some(pos), Some(shs)) = (num(h), num(pos), shs) else { return obs("bad-op") };
+            let Some(f) = st.files.get(&h) else { return obs("nohandle") };
+            if !wf_all(&shs) {
+                return try_construct(&shs);
+            }
+            let all_plain = shs.iter().all(|s| !s.sliced);
+            let r = if all_plain && shs.len() == 2 {
+                wr_at(f, [mk_vec(&shs[0]), mk_vec(&shs[1])], pos).await
+            } else if all_plain {
+                wr_at(f, shs.iter().map(mk_vec).collect::<Vec<_>>(), pos).await
+            } else {
+                wr_at(f, shs.iter().map(mk_any).collect::<Vec<_>>(), pos).await
+            };
+            match r {
+                Ok(n) => obs(format!("ok {n}")),
+                Err(e) => err_obs(&e),
+            }
+        }
+        ["setlen", h, n] => {
+            let (Some(h), Some(n)) = (num(h), num(n)) else { return obs("bad-op") };
+            let Some(f) = st.files.get(&h) else { return obs("nohandle") };
+            res_obs(f.set_len(n).await)
+        }
+        ["sync", h, which] => {
+            let Some(h) = num(h) else { return obs("bad-op") };
+            let Some(f) = st.files.get(&h) else { return obs("nohandle") };
+            res_obs(if *which == "data" { f.sync_data().await } else { f.sync_all().await })
+        }
+        ["meta", h] => {
+            let Some(h) = num(h) else { return obs("bad-op") };
+            let Some(f) = st.files.get(&h) else { return obs("nohandle") };
+            match f.metadata().await {
+                Ok(m) => meta_obs(m.is_dir(), m.is_file(), m.is_symlink(), m.len(), m.mode(), m.nlink()),
+                Err(e) => err_obs(&e),
+            }
+        }
+        ["stat", name] => match compio_fs::metadata(dir.join(name)).await {
+            Ok(m) => meta_obs(m.is_dir(), m.is_file(), m.is_symlink(), m.len(), m.mode(), m.nlink()),
+            Err(e) => err_obs(&e),
+        },
+        ["lstat", name] => match compio_fs::symlink_metadata(dir.join(name)).await {
+            Ok(m) => meta_obs(m.is_dir(), m.is_file(), m.is_symlink(), m.len(), m.mode(), m.nlink()),
+            Err(e) => err_obs(&e),
+        },
+        ["mkdir", name] => res_obs(compio_fs::create_dir(dir.join(name)).await),
+        ["rmdir", name] => res_obs(compio_fs::remove_dir(dir.join(name)).await),
+        ["unlink", name] => res_obs(compio_fs::remove_file(dir.join(name)).await),
+        ["rename", a, b] => res_obs(compio_fs::rename(dir.join(a), dir.join(b)).await),
+        ["hardlink", a, b] => res_obs(compio_fs::hard_link(dir.join(a), dir.join(b)).await),
+        ["symlink", t, n] => res_obs(compio_fs::symlink(t, dir.join(n)).await),
+        // observation through std::fs ("file contents read back through std::fs")
+        ["content", name] => match std::fs::read(dir.join(name)) {
+            Ok(c) => obs(format!("ok {}", hex(&c))),
+            Err(e) => err_obs(&e),
+        },
+        ["pipe", p] => {
+            let Some(p) = num(p) else { return obs("bad-op") };
+            match compio_fs::pipe::anonymous().await {
+                Ok((rx, tx)) => {
+                    st.pipes.insert(p, CPipe { rx: Some(rx), tx: Some(tx), buffered: 0 });
+                    obs("ok")
+                }
+                Err(e) => err_obs(&e),
+            }
+        }
+        ["pclose", p, which] => {
+            let Some(p) = num(p) else { return obs("bad-op") };
+            let Some(pp) = st.pipes.get_mut(&p) else { return obs("nohandle") };
+            match *which {
+                "r" => {
+                    if let Some(rx) = pp.rx.take() {
+                        let _ = rx.close().await;
+                    }
+                    obs("ok")
+                }
+                "w" => {
+                    if let Some(tx) = pp.tx.take() {
+                        let _ = tx.close().await;
+                    }
+                    obs("ok")
+                }
+                _ => obs("bad-op"),
+            }
+        }
+        ["pwrite", p, buf] => {
+            let (Some(p), Some(sh)) = (num(p), parse_wbuf(buf)) else { return obs("bad-op") };
+            let Some(pp) = st.pipes.get_mut(&p) else { return obs("nohandle") };
+            let Some(tx) = pp.tx.as_mut() else { return obs("closed") };
+            if !sh.wf() {
+                return try_construct(&[sh]);
+            }
+            if pp.buffered + sh.visible().len() > PIPE_LIMIT {
+                return obs("full");
+            }
+            let r = match mk_any(&sh) {
+                AnyBuf::V(v) => tx.write(v).await.0,
+                AnyBuf::S(s) => tx.write(s).await.0,
+            };
+            match r {
+                Ok(n) => {
+                    pp.buffered += n;
+                    obs(format!("ok {n}"))
+                }
+                Err(e) => err_obs(&e),
+            }
+        }
+        ["pwritev", p, bufs] => {
+            let shs: Option<Vec<Shape>> = list_of(bufs).into_iter().map(parse_wbuf).collect();
+            let (Some(p), Some(shs)) = (num(p), shs) else { return obs("bad-op") };
+            let Some(pp) = st.pipes.get_mut(&p) else { return obs("nohandle") };
+            let Some(tx) = pp.tx.as_mut() else { return obs("closed") };
+            if !wf_all(&shs) {
+                return try_construct(&shs);
+            }
+            let total: usize = shs.iter().map(|s| s.visible().len()).sum();
+            if pp.buffered + total > PIPE_LIMIT {
+                return obs("full");
+            }
+            let all_plain = shs.iter().all(|s| !s.sliced);
+            let r = if all_plain {
+                tx.write_vectored(shs.iter().map(mk_vec).collect::<Vec<_>>()).await.0
+            } else {
+                tx.write_vectored(shs.iter().map(mk_any).collect::<Vec<_>>()).await.0
+            };
+            match r {
+                Ok(n) => {
+                    pp.buffered += n;
+                    obs(format!("ok {n}"))
+                }
+                Err(e) => err_obs(&e),
+            }
+        }
+        ["pread", p, buf] => {
+            let (Some(p), Some(sh)) = (num(p), parse_rbuf(buf)) else { return obs("bad-op") };
+            let Some(pp) = st.pipes.get_mut(&p) else { return obs("nohandle") };
+            let writer_open = pp.tx.is_some();
+            let Some(rx) = pp.rx.as_mut() else { return obs("closed") };
+            if !sh.wf() {
+                return try_construct(&[sh]);
+            }
+            if pp.buffered == 0 && writer_open {
+                return obs("wouldblock");
+            }
+            let (r, root) = if sh.sliced {
+                let s = mk_slice(&sh);
+                let compio_buf::BufResult(r, s) = rx.read(s).await;
+                (r, s.into_inner())
+            } else {
+                let v = mk_vec(&sh);
+                let compio_buf::BufResult(r, v) = rx.read(v).await;
+                (r, v)
+            };
+            match r {
+                Ok(n) => {
+                    pp.buffered -= n.min(pp.buffered);
+                    read_obs(n, &[sh], &[root], false)
+                }
+                Err(e) => err_obs(&e),
+            }
+        }
+        ["preadv", p, bufs] => {
+            let shs: Option<Vec<Shape>> = list_of(bufs).into_iter().map(parse_rbuf).collect();
+            let (Some(p), Some(shs)) = (num(p), shs) else { return obs("bad-op") };
+            let Some(pp) = st.pipes.get_mut(&p) else { return obs("nohandle") };
+            let writer_open = pp.tx.is_some();
+            let Some(rx) = pp.rx.as_mut() else { return obs("closed") };
+            if !wf_all(&shs) {
+                return try_construct(&shs);
+            }
+            if pp.buffered == 0 && writer_open {
+                return obs("wouldblock");
+            }
+            let mut got = 0;
+            let o = c_read_vec(&shs, async |b| match b {
+                VecKind::Arr2(a) => {
+                    let compio_buf::BufResult(r, a) = rx.read_vectored(a).await;
+                    got = *r.as_ref().unwrap_or(&0);
+                    (r, VecKind::Arr2(a))
+                }
+                VecKind::Plain(a) => {
+                    let compio_buf::BufResult(r, a) = rx.read_vectored(a).await;
+                    got = *r.as_ref().unwrap_or(&0);
+                    (r, VecKind::Plain(a))
+                }
+                VecKind::Mixed(a) => {
+                    let compio_buf::BufResult(r, a) = rx.read_vectored(a).await;
+                    got = *r.as_ref().unwrap_or(&0);
+                    (r, VecKind::Mixed(a))
+                }
+            })
+            .await;
+            pp.buffered -= got.min(pp.buffered);
+            o
+        }
+        ["fseqopen", h, name, rw] => {
+            let Some(h) = num(h) else { return obs("bad-op") };
+            let r = std::fs::OpenOptions::new().read(rw.contains('r')).write(rw.contains('w')).open(dir.join(name));
+            match r.and_then(|f| {
+                if f.metadata()?.is_dir() {
+                    return Err(io::Error::from_raw_os_error(21));
+                }
+                AsyncFd::new(f)
+            }) {
+                Ok(fd) => {
+                    st.seq.insert(h, fd);
+                    obs("ok")
+                }
+                Err(e) => err_obs(&e),
+            }
+        }
+        ["fseqread", h, buf] => {
+            let (Some(h), Some(sh)) = (num(h), parse_rbuf(buf)) else { return obs("bad-op") };
+            let Some(fd) = st.seq.get_mut(&h) else { return obs("nohandle") };
+            if !sh.wf() {
+                return try_construct(&[sh]);
+            }
+            let (r, root) = if sh.sliced {
+                let s = mk_slice(&sh);
+                let compio_buf::BufResult(r, s) = fd.read(s).await;
+                (r, s.into_inner())
+            } else {
+                let v = mk_vec(&sh);
+                let compio_buf::BufResult(r, v) = fd.read(v).await;
+                (r, v)
+            };
+            match r {
+                Ok(n) => read_obs(n, &[sh], &[root], false),
+                Err(e) => err_obs(&e),
+            }
+        }
+        ["fseqwrite", h, buf] => {
+            let (Some(h), Some(sh)) = (num(h), parse_wbuf(buf)) else { return obs("bad-op") };
+            let Some(fd) = st.seq.get_mut(&h) else { return obs("nohandle") };
+            if !sh.wf() {
+                return try_construct(&[sh]);
+            }
+            let r = match mk_any(&sh) {
+                AnyBuf::V(v) => fd.write(v).await.0,
+                AnyBuf::S(s) => fd.write(s).await.0,
+            };
+            match r {
+                Ok(n) => obs(format!("ok {n}")),
+                Err(e) => err_obs(&e),
+            }
+        }
+        _ => obs("bad-op"),
+    }
+}
+
+fn meta_obs(is_dir: bool, is_file: bool, is_symlink: bool, len: u64, mode: u32, nlink: u64) -> Obs {
+    let text = if is_dir {
+        "ok dir".to_string()
+    } else if is_symlink {
+        "ok symlink".to_string()
+    } else if is_file {
+        format!("ok file {len}")
+    } else {
+        "ok other".to_string()
+    };
+    Obs { cmp: format!("{text} mode={mode:o} nlink={nlink}"), text, unrecorded: None }
+}
+
+fn run_compio(rt: &Runtime, dir: &Path, lines: &[String]) -> Vec<Obs> {
+    let _ = std::fs::remove_dir_all(dir);
+    std::fs::create_dir_all(dir).expect("mkdir");
+    let out = rt.block_on(async {
+        let mut st = CState::default();
+        let mut out = vec![];
+        for l in lines {
+            let w: Vec<&str> = l.split_whitespace().collect();
+            out.push(compio_line(&mut st, dir, &w).await);
+        }
+        for (_, f) in st.files.drain() {
+            let _ = f.close().await;
+        }
+        out
+    });
+    let _ = std::fs::remove_dir_all(dir);
+    out
+}
+
+// ---------------------------------------------------------------------------------------------
+// OS twin (std::fs + libc)
+// ---------------------------------------------------------------------------------------------
+
+struct OPipe {
+    rx: Option<OwnedFd>,
+    tx: Option<OwnedFd>,
+    buffered: usize,
+}
+
+#[derive(Default)]
+struct OState {
+    files: HashMap<u64, std::fs::File>,
+    seq: HashMap<u64, std::fs::File>,
+    pipes: HashMap<u64, OPipe>,
+}
+
+fn cvt(r: isize) -> io::Result<usize> {
+    if r < 0 { Err(io::Error::last_os_error()) } else { Ok(r as usize) }
+}
+
+/// readv/preadv/read/pread into the windows of fresh copies of the shapes
+fn os_read(fd: i32, shs: &[Shape], pos: Option<u64>, vectored: bool) -> Obs {
+    let mut mems: Vec<Vec<u8>> = shs.iter().map(|s| s.mem.clone()).collect();
+    let iov: Vec<libc::iovec> = shs
+        .iter()
+        .zip(mems.iter_mut())
+        .map(|(s, m)| {
+            let (off, wl) = s.window();
+            libc::iovec { iov_base: unsafe { m.as_mut_ptr().add(off) } as *mut _, iov_len: wl }
+        })
+        .collect();
+    let r = unsafe {
+        match (vectored, pos) {
+            (true, Some(p)) => libc::preadv(fd, iov.as_ptr(), iov.len() as _, p as i64),
+            (true, None) => libc::readv(fd, iov.as_ptr(), iov.len() as _),
+            (false, Some(p)) => libc::pread(fd, iov[0].iov_base, iov[0].iov_len, p as i64),
+            (false, None) => libc::read(fd, iov[0].iov_base, iov[0].iov_len),
+        }
+    };
+    match cvt(r) {
+        Ok(n) => {
+            let hexes: Vec<String> = mems.iter().map(|m| hex(m)).collect();
+            let h = if vectored { join_or(hexes) } else { hexes[0].clone() };
+            obs(format!("ok {n} {h}"))
+        }
+        Err(e) => err_obs(&e),
+    }
+}
+
+fn os_write(fd: i32, shs: &[Shape], pos: Option<u64>, vectored: bool) -> io::Result<usize> {
+    let iov: Vec<libc::iovec> =
+        shs.iter().map(|s| libc::iovec { iov_base: s.visible().as_ptr() as *mut _, iov_len: s.visible().len() }).collect();
+    let r = unsafe {
+        match (vectored, pos) {
+            (true, Some(p)) => libc::pwritev(fd, iov.as_ptr(), iov.len() as _, p as i64),
+            (true, None) => libc::writev(fd, iov.as_ptr(), iov.len() as _),
+            (false, Some(p)) => libc::pwrite(fd, iov[0].iov_base, iov[0].iov_len, p as i64),
+            (false, None) => libc::write(fd, iov[0].iov_base, iov[0].iov_len),
+        }
+    };
+    cvt(r)
+}
+
+fn std_meta(m: io::Result<std::fs::Metadata>) -> Obs {
+    match m {
+        Ok(m) => meta_obs(m.is_dir(), m.is_file(), m.file_type().is_symlink(), m.len(), m.mode(), m.nlink()),
+        Err(e) => err_obs(&e),
+    }
+}
+
+fn os_line(st: &mut OState, dir: &Path, w: &[&str]) -> Obs {
+    let num = |s: &str| s.parse::<u64>().ok();
+    let wr = |r: io::Result<usize>| match r {
+        Ok(n) => obs(format!("ok {n}")),
+        Err(e) => err_obs(&e),
+    };
+    match w {
+        ["open", h, name, bits] => {
+            let (Some(h), true) = (num(h), bits.len() == 5 && bits.bytes().all(|b| b == b'0' || b == b'1')) else { return obs("bad-op") };
+            let b: Vec<bool> = bits.bytes().map(|x| x == b'1').collect();
+            match std::fs::OpenOptions::new().read(b[0]).write(b[1]).truncate(b[2]).create(b[3]).create_new(b[4]).open(dir.join(name)) {
+                Ok(f) => {
+                    st.files.insert(h, f);
+                    obs("ok")
+                }
+                Err(e) => err_obs(&e),
+            }
+        }
+        ["close", h] => {
+            let Some(h) = num(h) else { return obs("bad-op") };
+            if st.files.remove(&h).is_some() || st.seq.remove(&h).is_some() { obs("ok") } else { obs("nohandle") }
+        }
+        ["readat", h, pos, buf] => {
+            let (Some(h), Some(pos), Some(sh)) = (num(h), num(pos), parse_rbuf(buf)) else { return obs("bad-op") };
+            let Some(f) = st.files.get(&h) else { return obs("nohandle") };
+            if !sh.wf() {
+                return obs("panic");
+            }
+            os_read(f.as_raw_fd(), &[sh], Some(pos), false)
+        }
+        ["readv", h, pos, bufs] => {
+            let shs: Option<Vec<Shape>> = list_of(bufs).into_iter().map(parse_rbuf).collect();
+            let (Some(h), Some(pos), Some(shs)) = (num(h), num(pos), shs) else { return obs("bad-op") };
+            let Some(f) = st.files.get(&h) else { return obs("nohandle") };
+            if !wf_all(&shs) {
+                return obs("panic");
+            }
+            os_read(f.as_raw_fd(), &shs, Some(pos), true)
+        }
+        ["writeat", h, pos, buf] => {
+            let (Some(h), Some(pos), Some(sh)) = (num(h), num(pos), parse_wbuf(buf)) else { return obs("bad-op") };
+            let Some(f) = st.files.get(&h) else { return obs("nohandle") };
+            if !sh.wf() {
+                return obs("panic");
+            }
+            // std's own positional write
+            wr(f.write_at(sh.visible(), pos))
+        }
+        ["writev", h, pos, bufs] => {
+            let shs: Option<Vec<Shape>> = list_of(bufs).into_iter().map(parse_wbuf).collect();
+            let (Some(h), Some(pos), Some(shs)) = (num(h), num(pos), shs) else { return obs("bad-op") };
+            let Some(f) = st.files.get(&h) else { return obs("nohandle") };
+            if !wf_all(&shs) {
+                return obs("panic");
+            }
+            wr(os_write(f.as_raw_fd(), &shs, Some(pos), true))
+        }
+        ["setlen", h, n] => {
+            let (Some(h), Some(n)) = (num(h), num(n)) else { return obs("bad-op") };
+            let Some(f) = st.files.get(&h) else { return obs("nohandle") };
+            res_obs(f.set_len(n))
+        }
+        ["sync", h, which] => {
+            let Some(h) = num(h) else { return obs("bad-op") };
+            let Some(f) = st.files.get(&h) else { return obs("nohandle") };
+            res_obs(if *which == "data" { f.sync_data() } else { f.sync_all() })
+        }
+        ["meta", h] => {
+            let Some(h) = num(h) else { return obs("bad-op") };
+            let Some(f) = st.files.get(&h) else { return obs("nohandle") };
+            std_meta(f.metadata())
+        }
+        ["stat", name] => std_meta(std::fs::metadata(dir.join(name))),
+        ["lstat", name] => std_meta(std::fs::symlink_metadata(dir.join(name))),
+        ["mkdir", name] => res_obs(std::fs::create_dir(dir.join(name))),
+        ["rmdir", name] => res_obs(std::fs::remove_dir(dir.join(name))),
+        ["unlink", name] => res_obs(std::fs::remove_file(dir.join(name))),
+        ["rename", a, b] => res_obs(std::fs::rename(dir.join(a), dir.join(b))),
+        ["hardlink", a, b] => res_obs(std::fs::hard_link(dir.join(a), dir.join(b))),
+        ["symlink", t, n] => res_obs(std::os::unix::fs::symlink(t, dir.join(n))),
+        ["content", name] => match std::fs::read(dir.join(name)) {
+            Ok(c) => obs(format!("ok {}", hex(&c))),
+            Err(e) => err_obs(&e),
+        },
+        ["pipe", p] => {
+            let Some(p) = num(p) else { return obs("bad-op") };
+            let mut fds = [0i32; 2];
+            if unsafe { libc::pipe2(fds.as_mut_ptr(), libc::O_CLOEXEC) } != 0 {
+                return err_obs(&io::Error::last_os_error());
+            }
+            let (rx, tx) = unsafe { (OwnedFd::from_raw_fd(fds[0]), OwnedFd::from_raw_fd(fds[1])) };
+            st.pipes.insert(p, OPipe { rx: Some(rx), tx: Some(tx), buffered: 0 });
+            obs("ok")
+        }
+        ["pclose", p, which] => {
+            let Some(p) = num(p) else { return obs("bad-op") };
+            let Some(pp) = st.pipes.get_mut(&p) else { return obs("nohandle") };
+            match *which {
+                "r" => {
+                    pp.rx = None;
+                    obs("ok")
+                }
+                "w" => {
+                    pp.tx = None;
+                    obs("ok")
+                }
+                _ => obs("bad-op"),
+            }
+        }
+        ["pwrite", p, buf] | ["pwritev", p, buf] => {
+            let vectored = w[0] == "pwritev";
+            let shs: Option<Vec<Shape>> = if vectored { list_of(buf).into_iter().map(parse_wbuf).collect() } else { parse_wbuf(buf).map(|s| vec![s]) };
+            let (Some(p), Some(shs)) = (num(p), shs) else { return obs("bad-op") };
+            let Some(pp) = st.pipes.get_mut(&p) else { return obs("nohandle") };
+            let Some(tx) = pp.tx.as_ref() else { return obs("closed") };
+            if !wf_all(&shs) {
+                return obs("panic");
+            }
+            let total: usize = shs.iter().map(|s| s.visible().len()).sum();
+            if pp.buffered + total > PIPE_LIMIT {
+                return obs("full");
+            }
+            let r = os_write(tx.as_raw_fd(), &shs, None, vectored);
+            if let Ok(n) = &r {
+                pp.buffered += n;
+            }
+            wr(r)
+        }
+        ["pread", p, buf] | ["preadv", p, buf] => {
+            let vectored = w[0] == "preadv";
+            let shs: Option<Vec<Shape>> = if vectored { list_of(buf).into_iter().map(parse_rbuf).collect() } else { parse_rbuf(buf).map(|s| vec![s]) };
+            let (Some(p), Some(shs)) = (num(p), shs) else { return obs("bad-op") };
+            let Some(pp) = st.pipes.get_mut(&p) else { return obs("nohandle") };
+            let writer_open = pp.tx.is_some();
+            let Some(rx) = pp.rx.as_ref() else { return obs("closed") };
+            if !wf_all(&shs) {
+                return obs("panic");
+            }
+            if pp.buffered == 0 && writer_open {
+                return obs("wouldblock");
+            }
+            let o = os_read(rx.as_raw_fd(), &shs, None, vectored);
+            if let Some(n) = o.text.split(' ').nth(1).and_then(|x| x.parse::<usize>().ok()) {
+                if o.text.starts_with("ok") {
+                    pp.buffered -= n.min(pp.buffered);
+                }
+            }
+            o
+        }
+        ["fseqopen", h, name, rw] => {
+            let Some(h) = num(h) else { return obs("bad-op") };
+            match std::fs::OpenOptions::new().read(rw.contains('r')).write(rw.contains('w')).open(dir.join(name)).and_then(|f| {
+                if f.metadata()?.is_dir() {
+                    return Err(io::Error::from_raw_os_error(21));
+                }
+                Ok(f)
+            }) {
+                Ok(f) => {
+                    st.seq.insert(h, f);
+                    obs("ok")
+                }
+                Err(e) => err_obs(&e),
+            }
+        }
+        ["fseqread", h, buf] => {
+            let (Some(h), Some(sh)) = (num(h), parse_rbuf(buf)) else { return obs("bad-op") };
+            let Some(f) = st.seq.get(&h) else { return obs("nohandle") };
+            if !sh.wf() {
+                return obs("panic");
+            }
+            os_read(f.as_raw_fd(), &[sh], None, false)
+        }
+        ["fseqwrite", h, buf] => {
+            let (Some(h), Some(sh)) = (num(h), parse_wbuf(buf)) else { return obs("bad-op") };
+            let Some(f) = st.seq.get(&h) else { return obs("nohandle") };
+            if !sh.wf() {
+                return obs("panic");
+            }
+            wr(os_write(f.as_raw_fd(), &[sh], None, false))
+        }
+        _ => obs("bad-op"),
+    }
+}
+
+fn run_os(dir: &Path, lines: &[String]) -> Vec<Obs> {
+    let _ = std::fs::remove_dir_all(dir);
+    std::fs::create_dir_all(dir).expect("mkdir");
+    let mut st = OState::default();
+    let out = lines
+        .iter()
+        .map(|l| {
+            let w: Vec<&str> = l.split_whitespace().collect();
+            os_line(&mut st, dir, &w)
+        })
+        .collect();
+    drop(st);
+    let _ = std::fs::remove_dir_all(dir);
+    out
+}
+
+// ---------------------------------------------------------------------------------------------
+// generator
+// ---------------------------------------------------------------------------------------------
+
+fn rbytes(rng: &mut Rng, lo: u64, hi: u64) -> Vec<u8> {
+    let n = rng.range(lo, hi) as usize;
+    rng.bytes(n)
+}
+
+const NAMES: [&str; 4] = ["a", "b", "c", "d"];
+
+fn gen_rbuf(rng: &mut Rng) -> String {
+    let cap = *rng.pick(&[0u64, 1, 2, 3, 5, 8, 13, 16, 24]);
+    let len = match rng.below(4) {
+        0 => 0,
+        1 => cap,
+        _ => rng.below(cap + 1),
+    };
+    let fill = rng.below(256);
+    if rng.chance(1, 4) {
+        // slice view: `len..` (append into the spare capacity), `b..e`
+        let begin = if rng.chance(1, 2) { len } else { rng.below(len + 1) };
+        let end = if rng.chance(1, 2) { "-".to_string() } else { rng.range(begin, cap + 2).to_string() };
+        format!("{cap}:{len}:{fill}:{begin}:{end}")
+    } else {
+        format!("{cap}:{len}:{fill}")
+    }
+}
+
+fn gen_wbuf(rng: &mut Rng) -> String {
+    let n = *rng.pick(&[0usize, 1, 2, 3, 5, 8, 13]);
+    let data = rng.bytes(n);
+    let spare = *rng.pick(&[0u64, 0, 1, 4]);
+    if rng.chance(1, 5) {
+        let begin = rng.below(n as u64 + 1);
+        let end = if rng.chance(1, 2) { "-".to_string() } else { rng.range(begin, n as u64 + spare + 1).to_string() };
+        format!("{}:{spare}:{begin}:{end}", hex(&data))
+    } else {
+        format!("{}:{spare}", hex(&data))
+    }
+}
+
+fn gen_list(rng: &mut Rng, f: fn(&mut Rng) -> String) -> String {
+    let n = match rng.below(8) {
+        0 => 0,
+        1 => 1,
+        2 | 3 | 4 => 2,
+        5 | 6 => 3,
+        _ => 4,
+    };
+    join_or((0..n).map(|_| f(rng)).collect())
+}
+
+fn gen_pos(rng: &mut Rng, approx_len: u64) -> u64 {
+    match rng.below(8) {
+        0 => 0,
+        1 => approx_len,
+        2 => approx_len + rng.below(6),
+        3 => rng.below(40),
+        _ => rng.below(approx_len + 1),
+    }
+}
+
+fn bits(r: bool, w: bool, t: bool, c: bool, n: bool) -> String {
+    [r, w, t, c, n].iter().map(|b| if *b { '1' } else { '0' }).collect()
+}
+
+fn gen_file_ops(rng: &mut Rng, lines: &mut Vec<String>, handles: &[u64], n_ops: u64) {
+    let mut approx = 16u64;
+    for _ in 0..n_ops {
+        let h = *rng.pick(handles);
+        match rng.below(20) {
+            0..=4 => lines.push(format!("readat {h} {} {}", gen_pos(rng, approx), gen_rbuf(rng))),
+            5..=8 => lines.push(format!("readv {h} {} {}", gen_pos(rng, approx), gen_list(rng, gen_rbuf))),
+            9..=12 => lines.push(format!("writeat {h} {} {}", gen_pos(rng, approx), gen_wbuf(rng))),
+            13..=15 => lines.push(format!("writev {h} {} {}", gen_pos(rng, approx), gen_list(rng, gen_wbuf))),
+            16 => {
+                approx = rng.below(48);
+                lines.push(format!("setlen {h} {approx}"));
+            }
+            17 => lines.push(format!("sync {h} {}", if rng.chance(1, 2) { "data" } else { "all" })),
+            _ => lines.push(format!("meta {h}")),
+        }
+    }
+}
+
+fn gen_rw_case(rng: &mut Rng) -> Vec<String> {
+    let mut l = vec![];
+    let name = *rng.pick(&NAMES);
+    l.push(format!("open 1 {name} {}", bits(true, true, false, true, false)));
+    let n0 = rng.below(40) as usize;
+    let init = rng.bytes(n0);
+    l.push(format!("writeat 1 0 {}:0", hex(&init)));
+    let mut handles = vec![1u64];
+    if rng.chance(1, 3) {
+        // second handle with restricted access
+        let (r, w) = *rng.pick(&[(true, false), (false, true), (true, true)]);
+        l.push(format!("open 2 {name} {}", bits(r, w, false, false, false)));
+        handles.push(2);
+    }
+    let n = rng.range(4, 14);
+    gen_file_ops(rng, &mut l, &handles, n);
+    l.push(format!("content {name}"));
+    l
+}
+
+fn gen_setup(rng: &mut Rng, l: &mut Vec<String>) {
+    // a random flat directory: files, dirs, symlinks (to files, dirs, nothing, themselves)
+    for name in NAMES {
+        match rng.below(7) {
+            0 | 1 => {
+                l.push(format!("open 9 {name} {}", bits(false, true, false, true, false)));
+                l.push(format!("writeat 9 0 {}:0", hex(&rbytes(rng, 0, 11))));
+                l.push("close 9".into());
+            }
+            2 => l.push(format!("mkdir {name}")),
+            3 => l.push(format!("symlink {} {name}", rng.pick(&NAMES))),
+            _ => {}
+        }
+    }
+}
+
+fn gen_open_case(rng: &mut Rng) -> Vec<String> {
+    let mut l = vec![];
+    gen_setup(rng, &mut l);
+    let mut handles = vec![];
+    for h in 1..=rng.range(1, 3) {
+        let b = if rng.chance(1, 2) {
+            // mostly valid combinations
+            let w = rng.chance(3, 4);
+            bits(rng.chance(2, 3) || !w, w, w && rng.chance(1, 3), w && rng.chance(1, 2), w && rng.chance(1, 5))
+        } else {
+            bits(rng.chance(1, 2), rng.chance(1, 2), rng.chance(1, 2), rng.chance(1, 2), rng.chance(1, 2))
+        };
+        l.push(format!("open {h} {} {b}", rng.pick(&NAMES)));
+        handles.push(h);
+    }
+    let n = rng.range(2, 6);
+    gen_file_ops(rng, &mut l, &handles, n);
+    for name in NAMES {
+        l.push(format!("lstat {name}"));
+        l.push(format!("content {name}"));
+    }
+    l
+}
+
+fn gen_dir_case(rng: &mut Rng) -> Vec<String> {
+    let mut l = vec![];
+    gen_setup(rng, &mut l);
+    let mut handles: Vec<u64> = vec![];
+    for _ in 0..rng.range(4, 12) {
+        let a = *rng.pick(&NAMES);
+        let b = *rng.pick(&NAMES);
+        match rng.below(16) {
+            0 => l.push(format!("mkdir {a}")),
+            1 => l.push(format!("rmdir {a}")),
+            2 | 3 => l.push(format!("unlink {a}")),
+            4..=6 => l.push(format!("rename {a} {b}")),
+            7 | 8 => l.push(format!("hardlink {a} {b}")),
+            9 => l.push(format!("symlink {a} {b}")),
+            10 => l.push(format!("stat {a}")),
+            11 => l.push(format!("lstat {a}")),
+            12 | 13 => {
+                let h = handles.len() as u64 + 1;
+                l.push(format!("open {h} {a} {}", bits(true, rng.chance(1, 2), false, rng.chance(1, 3), false)));
+                handles.push(h);
+            }
+            _ => {
+                if !handles.is_empty() {
+                    let hs = handles.clone();
+                    gen_file_ops(rng, &mut l, &hs, 2);
+                }
+            }
+        }
+    }
+    for name in NAMES {
+        l.push(format!("lstat {name}"));
+        l.push(format!("stat {name}"));
+        l.push(format!("content {name}"));
+    }
+    l
+}
+
+fn gen_pipe_case(rng: &mut Rng) -> Vec<String> {
+    let mut l = vec!["pipe 1".to_string()];
+    let mut buffered: i64 = 0;
+    let mut w_open = true;
+    let mut r_open = true;
+    for _ in 0..rng.range(4, 14) {
+        match rng.below(12) {
+            0..=2 if w_open => {
+                l.push(format!("pwrite 1 {}", gen_wbuf(rng)));
+                buffered += 13;
+            }
+            3 | 4 if w_open => {
+                l.push(format!("pwritev 1 {}", gen_list(rng, gen_wbuf)));
+                buffered += 13;
+            }
+            5..=7 if r_open => l.push(format!("pread 1 {}", gen_rbuf(rng))),
+            8 | 9 if r_open => l.push(format!("preadv 1 {}", gen_list(rng, gen_rbuf))),
+            10 if buffered > 0 && rng.chance(1, 2) => {
+                l.push("pclose 1 w".into());
+                w_open = false;
+            }
+            11 if rng.chance(1, 4) => {
+                l.push("pclose 1 r".into());
+                r_open = false;
+            }
+            _ => l.push(format!("pread 1 {}", gen_rbuf(rng))),
+        }
+    }
+    // drain
+    if w_open {
+        l.push("pclose 1 w".into());
+    }
+    for _ in 0..3 {
+        l.push("preadv 1 24:0:0,24:0:7".into());
+    }
+    l
+}
+
+fn gen_fseq_case(rng: &mut Rng) -> Vec<String> {
+    let mut l = vec![];
+    l.push(format!("open 1 a {}", bits(true, true, false, true, false)));
+    l.push(format!("writeat 1 0 {}:0", hex(&rbytes(rng, 8, 24))));
+    l.push("close 1".into());
+    l.push("fseqopen 2 a rw".into());
+    for _ in 0..rng.range(2, 4) {
+        if rng.chance(2, 3) {
+            l.push(format!("fseqread 2 {}:0:{}", rng.range(1, 6), rng.below(256)));
+        } else {
+            l.push(format!("fseqwrite 2 {}:0", hex(&rbytes(rng, 1, 4))));
+        }
+    }
+    l.push("content a".into());
+    l
+}
+
+fn gen_hostile_case(rng: &mut Rng) -> Vec<String> {
+    let mut l = vec![];
+    l.push(format!("open 1 a {}", bits(true, true, false, true, false)));
+    l.push(format!("writeat 1 0 {}:2", hex(&rng.bytes(9))));
+    for _ in 0..rng.range(3, 8) {
+        match rng.below(10) {
+            0 => l.push(format!("readat 7 0 {}", gen_rbuf(rng))),
+            1 => l.push("readat 1 0 4:2:0:3:-".into()),
+            2 => l.push("readat 1 0 4:2:0:2:1".into()),
+            3 => l.push(format!("readat 1 {} 8:0:1", *rng.pick(&[1u64 << 31, 1 << 32, (1 << 40) + 3, i64::MAX as u64]))),
+            4 => l.push("readv 1 0 .".into()),
+            5 => l.push("writev 1 3 .".into()),
+            6 => l.push(format!("readv 1 2 0:0:1,{},0:0:2", gen_rbuf(rng))),
+            7 => l.push(format!("writev 1 {} -:0,{},-:3", rng.below(20), gen_wbuf(rng))),
+            8 => l.push("close 5".into()),
+            _ => l.push(format!("setlen 1 {}", rng.below(4096))),
+        }
+    }
+    l.push("content a".into());
+    l
+}
+
+fn generate(tier: &str, rng: &mut Rng) -> Vec<Case> {
+    let scale = if tier == "thorough" { 14 } else { 1 };
+    let mut cases = vec![];
+    let mut push = |name: String, lines: Vec<String>| cases.push(Case { name, lines });
+    // all 32 open-option settings x what the name is
+    for b in 0..32u32 {
+        for (k, setup) in [
+            ("missing", vec![]),
+            ("file", vec!["open 9 a 01010".to_string(), "writeat 9 0 010203:0".into(), "close 9".into()]),
+            ("dir", vec!["mkdir a".to_string()]),
+            ("link", vec!["open 9 b 01010".to_string(), "writeat 9 0 0405:0".into(), "close 9".into(), "symlink b a".into()]),
+            ("dangling", vec!["symlink c a".to_string()]),
+            ("loop", vec!["symlink a a".to_string()]),
+        ] {
+            let bs: String = (0..5).map(|i| if b & (1 << (4 - i)) != 0 { '1' } else { '0' }).collect();
+            let mut l = setup.clone();
+            l.push(format!("open 1 a {bs}"));
+            l.push("readat 1 0 4:0:0".into());
+            l.push("writeat 1 1 aa:0".into());
+            l.push("meta 1".into());
+            for n in ["a", "b", "c"] {
+                l.push(format!("lstat {n}"));
+                l.push(format!("content {n}"));
+            }
+            push(format!("open/{k}/{bs}"), l);
+        }
+    }
+    for i in 0..700 * scale {
+        push(format!("rw/{i}"), gen_rw_case(rng));
+    }
+    for i in 0..250 * scale {
+        push(format!("open-rand/{i}"), gen_open_case(rng));
+    }
+    for i in 0..250 * scale {
+        push(format!("dir/{i}"), gen_dir_case(rng));
+    }
+    for i in 0..250 * scale {
+        push(format!("pipe/{i}"), gen_pipe_case(rng));
+    }
+    for i in 0..60 * scale {
+        push(format!("hostile/{i}"), gen_hostile_case(rng));
+    }
+    for i in 0..6 * scale {
+        push(format!("fseq/{i}"), gen_fseq_case(rng));
+    }
+    cases
+}
+
+// ---------------------------------------------------------------------------------------------
+
+fn mk_rt(t: DriverType) -> Runtime {
     let mut pb = ProactorBuilder::new();
     pb.driver_type(t);
-    compio_runtime::RuntimeBuilder::new().with_proactor(pb).build().unwrap()
+    let rt = compio_runtime::RuntimeBuilder::new().with_proactor(pb).build().expect("runtime");
+    assert_eq!(rt.driver_type(), t, "requested driver not available");
+    rt
 }
 
 fn main() {
-    let dir = std::env::temp_dir().join(format!("c08probe-{}", std::process::id()));
-    std::fs::create_dir_all(&dir).unwrap();
-    for t in [DriverType::IoUring, DriverType::Poll] {
-        let p = dir.join("f");
-        std::fs::File::create(&p).unwrap().write_all(b"hello world!").unwrap();
-        let r = rt(t);
-        println!("driver {:?}", r.driver_type());
-        r.block_on(async {
-            let f = std::fs::File::open(&p).unwrap();
-            let mut fd = AsyncFd::new(f).unwrap();
-            for _ in 0..3 {
-                let (n, b) = fd.read(Vec::with_capacity(5)).await.unwrap();
-                println!("  seq read -> {n} {:?}", String::from_utf8_lossy(&b));
+    let base: PathBuf = std::env::temp_dir().join(format!("hx-c08-{}", std::process::id()));
+    let _ = std::fs::remove_dir_all(&base);
+    std::fs::create_dir_all(&base).expect("mkdir base");
+    let _ = CString::new("x");
+    let rt_iour = mk_rt(DriverType::IoUring);
+    let rt_poll = mk_rt(DriverType::Poll);
+    let (d_iour, d_poll, d_os) = (base.join("iour"), base.join("poll"), base.join("os"));
+
+    let exec = |case: &Case| -> Exec {
+        let mut ex = Exec::new();
+        let a = run_compio(&rt_iour, &d_iour, &case.lines);
+        let b = run_compio(&rt_poll, &d_poll, &case.lines);
+        let o = run_os(&d_os, &case.lines);
+        let mut tainted = false;
+        let mut n_ok = 0;
+        for (i, line) in case.lines.iter().enumerate() {
+            let op = line.split_whitespace().next().unwrap_or("");
+            let fseq = op.starts_with("fseq") && op != "fseqopen";
+            ex.tag(format!("op:{op}"));
+            if a[i].text == b[i].text {
+                ex.out.push(a[i].text.clone());
+            } else {
+                ex.out.push(format!("iour={} poll={}", a[i].text, b[i].text));
             }
-            let f = std::fs::OpenOptions::new().write(true).open(&p).unwrap();
-            let mut fd = AsyncFd::new(f).unwrap();
-            for _ in 0..2 {
-                let (n, _) = fd.write(b"AB".to_vec()).await.unwrap();
-                println!("  seq write -> {n}");
+            if a[i].text.starts_with("ok") {
+                n_ok += 1;
             }
-            println!("  content {:?}", String::from_utf8_lossy(&std::fs::read(&p).unwrap()));
-            let f = compio_fs::File::open(&p).await.unwrap();
-            let (n, b) = f.read_vectored_at([Vec::<u8>::with_capacity(5), Vec::with_capacity(5)], 0).await.unwrap();
-            println!("  readv -> {n} {:?}", b);
-        });
-    }
-    std::fs::remove_dir_all(&dir).unwrap();
+            if a[i].text.starts_with("err") {
+                ex.tag(format!("err:{}", a[i].text));
+            }
+            let sig = |s: &str| if fseq || tainted { "C08a:asyncfd-seq-regular-file".to_string() } else { s.to_string() };
+            let mut bad = false;
+            for (drv, x) in [("io_uring", &a[i]), ("polling", &b[i])] {
+                if x.cmp != o[i].cmp {
+                    bad = true;
+                    ex.fail(sig("C08:os-divergence"), format!("line {i} `{line}` driver={drv}: compio `{}` but the OS `{}`", x.cmp, o[i].cmp));
+                }
+                if let Some(d) = &x.unrecorded {
+                    let vect = op == "readv" || op == "preadv";
+                    ex.fail(
+                        if vect { "F15:vectored-nonprefix-init" } else { "C08:read-not-recorded" },
+                        format!("line {i} `{line}` driver={drv}: {d}"),
+                    );
+                    ex.tag("unrecorded");
+                }
+            }
+            if a[i].text != b[i].text {
+                bad = true;
+                ex.fail(sig("C08:driver-divergence"), format!("line {i} `{line}`: io_uring `{}` but polling `{}`", a[i].text, b[i].text));
+            }
+            if bad && fseq {
+                tainted = true;
+            }
+        }
+        ex.nontrivial = n_ok >= 3;
+        ex
+    };
+    run_harness(
+        generate,
+        exec,
+        "non-trivial = at least 3 operations of the case succeed on the real code (every case runs on io_uring, polling and the OS twin)",
+    );
+    let _ = std::fs::remove_dir_all(&base);
 }
